@@ -52,3 +52,18 @@ pub fn run_rt(case: &Value) -> Value {
     }
     json!({"ok": results_to(&rs), "outs": outs})
 }
+
+// engine "parse": {"hex": bytes, "format": "info"|"xml", "branch": bool} -> what the consumer would add for this artifact
+pub fn run_parse(case: &Value) -> Value {
+    let bytes = unhex(case["hex"].as_str().unwrap());
+    let branch = case["branch"].as_bool().unwrap();
+    let r = if case["format"].as_str().unwrap() == "xml" {
+        parse_jacoco_xml_report(std::io::BufReader::new(std::io::Cursor::new(bytes)))
+    } else {
+        parse_lcov(bytes, branch)
+    };
+    match r {
+        Ok(rs) => json!({"ok": results_to(&rs)}),
+        Err(e) => json!({"err": perr(&e)}),
+    }
+}
